@@ -45,7 +45,7 @@ func (r *Replay) Choose(p *Point) int {
 		}
 	}
 	r.Trace = append(r.Trace, Choice{N: len(p.Opts), C: c, RunEn: p.RunningEnabled, Clock: clock, FP: Fingerprint(),
-		TID: append([]int(nil), p.Opts...), Op: p.Op})
+		TID: p.Opts, Op: p.Op})
 	return c
 }
 
